@@ -303,6 +303,71 @@ func c10arenaEval(r *vx.R, c c10arena) {
 	r.Shape(fmt.Sprintf("arena:%s:h%d:pt%d:aad%d:t%d:n%d", name, c.Hdr, c.PtLen, c.AadLen, c.Tag, c.NLen))
 }
 
+// c10overEval: layouts in which the output region lies over an argument the operation has finished with before its
+// first output byte is written - legal under the crypto/cipher rules (which restrict the output only against the
+// plaintext / ciphertext body and the additional data) and handled by the standard library's GCM:
+//
+//	out-over-tag     Open: ciphertext||tag = rec[:n+t], dst = rec[n:n], so the plaintext is written over the received tag
+//	nonce-in-output  Seal / Open: dst = work[:0], the nonce lives at work[off:off+len(nonce)] inside the region the output
+//	                 will occupy (Hdr is the offset; the input is elsewhere)
+func c10overEval(r *vx.R, c c10arena) {
+	key := keyByName("std")
+	a, path, err := newAEAD(key, c.NLen, c.Tag)
+	if err != nil {
+		r.Add("unsupported_on_this_path", 1)
+		return
+	}
+	r.Eval(1)
+	pt, nonce0, aad := fillLen("pt", c.PtLen), fillLen("nonce", c.NLen), fillLen("aad", c.AadLen)
+	sealed := gcmref.Seal(refCipher(key), nonce0, pt, aad, c.Tag)
+	input, wantOut := pt, sealed
+	if c.Op == "open" {
+		input, wantOut = sealed, pt
+	}
+	work := bytes.Repeat([]byte{0x5A}, 2*len(sealed)+c.Hdr+c.NLen+32)
+	var dst, in, nonce []byte
+	switch c.Layout {
+	case "out-over-tag":
+		if c.Op != "open" || c.PtLen == 0 {
+			return
+		}
+		copy(work, sealed)
+		in, dst, nonce = work[:len(sealed)], work[c.PtLen:c.PtLen], append([]byte{}, nonce0...)
+	case "nonce-in-output":
+		if c.Hdr+c.NLen > len(wantOut) {
+			return // the nonce would not lie inside the output region
+		}
+		copy(work[c.Hdr:], nonce0)
+		in, dst, nonce = append([]byte{}, input...), work[:0], work[c.Hdr:c.Hdr+c.NLen]
+	}
+	keepIn := append([]byte{}, in...)
+	var out []byte
+	var oerr error
+	kind, msg := vx.TryFault(func() {
+		if c.Op == "seal" {
+			out = a.Seal(dst, nonce, in, aad)
+		} else {
+			out, oerr = a.Open(dst, nonce, in, aad)
+		}
+	})
+	name := fmt.Sprintf("%s:%s", c.Op, c.Layout)
+	if kind != "" {
+		r.Violation("buf:arena:panic:"+name, fmt.Sprintf("%s panicked (%s) on the legal argument layout '%s' (offset %d, msg %d, tag %d, nonce %d) [%s]: %s", c.Op, kind, c.Layout, c.Hdr, c.PtLen, c.Tag, c.NLen, path, msg), c)
+		return
+	}
+	if oerr != nil {
+		r.Violation("buf:arena:error:"+name, fmt.Sprintf("Open of an authentic message failed in layout '%s' (msg %d, tag %d, offset %d): %v [%s]", c.Layout, c.PtLen, c.Tag, c.Hdr, oerr, path), c)
+		return
+	}
+	if !bytes.Equal(out, wantOut) {
+		r.Violation("buf:arena:result:"+name, fmt.Sprintf("layout '%s' (msg %d, tag %d, nonce %d at offset %d): the result is not the output for these arguments [%s]", c.Layout, c.PtLen, c.Tag, c.NLen, c.Hdr, path), c)
+	}
+	if c.Layout == "out-over-tag" && !bytes.Equal(in[:c.PtLen], keepIn[:c.PtLen]) || c.Layout == "nonce-in-output" && !bytes.Equal(in, keepIn) {
+		r.Violation("buf:arena:input-modified:"+name, "the input body was modified although the output does not overlap it", c)
+	}
+	r.Shape(fmt.Sprintf("arena:%s:o%d:pt%d:t%d:n%d", name, c.Hdr, c.PtLen, c.Tag, c.NLen))
+}
+
 func spareClass(s string) string {
 	switch s {
 	case "nil", "empty", "inplace":
@@ -323,6 +388,10 @@ func TestVX_C10_GCM(t *testing.T) {
 		if _, ok := probe["Layout"]; ok {
 			var c c10arena
 			json.Unmarshal(raw, &c)
+			if c.Layout == "out-over-tag" || c.Layout == "nonce-in-output" {
+				c10overEval(r, c)
+				return
+			}
 			c10arenaEval(r, c)
 			return
 		}
@@ -332,6 +401,24 @@ func TestVX_C10_GCM(t *testing.T) {
 		return
 	}
 	n := 0
+	for _, op := range []string{"seal", "open"} {
+		for _, pl := range []int{1, 3, 5, 12, 15, 16, 17, 20, 21, 33, 48, 64, 100, 255, 256, 257, 1000, 1100} {
+			for _, tag := range []int{12, 16} {
+				for _, nl := range []int{12, 16} {
+					n++
+					if !vx.MineIdx(n) {
+						continue
+					}
+					c10overEval(r, c10arena{op, "out-over-tag", 0, pl, 17, tag, nl})
+					for _, off := range []int{0, 1, 3, 4, 16, pl - nl, pl - nl + 4, pl + tag - nl} {
+						if off >= 0 {
+							c10overEval(r, c10arena{op, "nonce-in-output", off, pl, 17, tag, nl})
+						}
+					}
+				}
+			}
+		}
+	}
 	for _, op := range []string{"seal", "open"} {
 		for _, lay := range []string{"tls", "prefix-inplace", "aad=prefix", "aad-in-prefix", "nonce-in-prefix", "aad=input", "one-buffer"} {
 			for _, hdr := range []int{1, 5, 13, 16, 17} {
